@@ -1,15 +1,39 @@
 /-
   C07 — repetition honours its bounds, is greedy and never strands a separator.
-  INTERIM file.  Proved here about the reference semantics `Spec.pegRepLoop`
-  (what the oracle evaluates on the real combinators' results):
-  * an upper bound of zero yields the empty list and consumes nothing;
-  * once `hi` items were taken the loop stops without trying a further item.
-  The refinement theorem (the model of `intersperse*` / `repeat*` = `Spec.pegRep`)
-  is in progress; until then the statement is carried by the `rep`
-  correspondence family + oracle.
+
+  English.  Setting as in C06 (`ScanOK`, `PassOK`, the relation `Abs lx s` between
+  a lexer and a state of the reference evaluator).  The reference semantics of
+  repetition is `Spec.pegRep` / `pegRepLoop`: take items greedily — the first item
+  alone, every later one preceded by a separator, separator and item succeeding or
+  failing together (a separator whose item fails is not consumed) — stop at the
+  first failure or when `hi` items were taken; fail when fewer than `lo` were
+  taken; with a stop parser, stop successfully at an item boundary as soon as it
+  would succeed there.
+
+  * `C07_partial` (PROVED): for every grammar of the fragment `pegWithRep` — the C06
+    fragment plus `repeat repeat_count intersperse intersperse_count
+    intersperse_default repeat_until intersperse_until` (and their counting forms)
+    with bounds `lo ≤ hi`, nested arbitrarily — every fuel `n`, related `lx`/`s`,
+    context, world: if the model (`run`, i.e. `interLoopStart`/`interLoop`/
+    `untilStart`/`untilLoop`/`sepItem`) returns `Ok(v, lx')`, then the reference
+    evaluator with any fuel `k ≥ 2 n` returns `ok v s'` with `lx'` related to `s'`;
+    if the model returns an error, the reference fails; if the reference is out of
+    fuel `k ≥ 2 n`, the model is out of fuel `n`; the model never panics.
+    The two evaluators spend fuel differently (the reference loop takes one more
+    step to notice that `hi` is reached, and evaluates the first item one level
+    deeper), hence the separate fuels.
+  * `C07_statement`: the same with filter-changing nodes allowed inside the
+    repetition — kept as a `def`, NOT proved: finding F27 (proved as
+    `C06_finding_F27`) applies as soon as a filter-changing node is entered while
+    nothing has been consumed.
+  * The three interim theorems are kept.
+
+  Unbounded: any scanner, text, metrics, bounds, item/separator/stop grammars of
+  the fragment, fuel.
 -/
 import TephraModel.Run
 import TephraModel.Spec.Peg
+import TephraProps.C06
 
 namespace Tephra.Props
 open Tephra Tephra.Spec
@@ -30,5 +54,74 @@ theorem C07_model_hi_zero (R : RunEnv) (n lo : Nat) (a sep : G) (lx : Lx) (ctx :
     interLoopStart R (n + 1) lo (some 0) a sep lx ctx W = (.ok (.list []) lx, W) := by
   subst h
   simp [interLoopStart, hiBelow]
+
+/-! ### the refinement theorem -/
+
+open Tephra.PegRefine
+
+/-- the root is a repetition combinator -/
+def isRep : G → Bool
+  | .repeat_ .. | .repeatUntil .. | .intersperse .. | .intersperseUntil .. | .intersperseDefault .. => true
+  | _ => false
+
+/-- FULL statement (kept as a def, not proved; F27 applies to its filter-changing instances):
+repetition over any grammar of the PEG family, filter-changing nodes included. -/
+def C07_statement : Prop :=
+  ∀ (R : RunEnv) (m : Metrics) (len : Nat), ScanOK R.E m len → ScanFinal R.E m → PassOK R.E →
+  ∀ (n : Nat) (g : G) (lx : Lx) (s : PState) (ctx : Ctx) (W : World),
+    isRep g = true → Spec.supported g = true → noAssert g = true → Abs R.E m len lx s →
+    (∀ v lx', (run R n g lx ctx W).1 = .ok v lx' → ∀ k, 2 * n ≤ k →
+      ∃ v' s', peg R.text k g s = .ok v' s' ∧ normVal v = normVal v' ∧ Abs R.E m len lx' s') ∧
+    (∀ e, (run R n g lx ctx W).1 = .err e → ∀ k, 2 * n ≤ k → peg R.text k g s = .fail)
+
+/-- PROVED: the refinement on the filter-preserving fragment with repetition. -/
+theorem C07_partial (R : RunEnv) (m : Metrics) (len : Nat) (ok : ScanOK R.E m len) (hp : PassOK R.E)
+    (n : Nat) (g : G) (lx : Lx) (s : PState) (ctx : Ctx) (W : World)
+    (hg : pegWithRep g = true) (a : Abs R.E m len lx s) :
+    (∀ v lx', (run R n g lx ctx W).1 = .ok v lx' → ∀ k, 2 * n ≤ k →
+      ∃ s', peg R.text k g s = .ok v s' ∧ Abs R.E m len lx' s') ∧
+    (∀ e, (run R n g lx ctx W).1 = .err e → ∀ k, 2 * n ≤ k → peg R.text k g s = .fail) ∧
+    (∀ k, 2 * n ≤ k → peg R.text k g s = .fuel → (run R n g lx ctx W).1 = .fuel) ∧
+    (run R n g lx ctx W).1 ≠ .panic := by
+  have key := fun k hk => rep_sim ok hp n n (Nat.le_refl n) k hk g lx s ctx W hg a
+  refine ⟨?_, ?_, ?_, ?_⟩
+  · intro v lx' h k hk
+    have := key k hk
+    rw [h] at this
+    exact this
+  · intro e h k hk
+    have := key k hk
+    rw [h] at this
+    exact this
+  · intro k hk h
+    have := key k hk
+    rw [h] at this
+    cases hr : (run R n g lx ctx W).1 with
+    | fuel => rfl
+    | ok v lx' => rw [hr] at this; obtain ⟨_, h', _⟩ := this; cases h'
+    | err e => rw [hr] at this; cases this
+    | panic => rw [hr] at this; exact this.elim
+  · intro h
+    have := key (2 * n) (Nat.le_refl _)
+    rw [h] at this
+    exact this
+
+/-- The C06 fragment is part of the C07 fragment. -/
+theorem C07_extends_C06 : ∀ g, pegCore g = true → pegWithRep g = true := by
+  intro g
+  induction g <;> simp_all [pegCore, pegWithRep]
+
+open PegRefine.Witness in
+set_option maxRecDepth 4000 in
+/-- Non-vacuity: on `a b` with the whitespace filter, `repeat(0, None, any([0,1]))` takes both
+letters (the filtered whitespace between them is skipped). -/
+example : ScanOK EW mW 3 ∧ PassOK EW ∧ Abs EW mW 3 lxW sW ∧
+    pegWithRep (.repeat_ 0 0 none (.any [0, 1])) = true ∧
+    okVal (run RW 9 (.repeat_ 0 0 none (.any [0, 1])) lxW ctxW World.init).1 =
+      some (.list [.tok ⟨0, 0⟩, .tok ⟨1, 0⟩]) := by
+  refine ⟨scanW_ok, passW, absW, rfl, ?_⟩
+  simp [okVal, run, interLoopStart, interLoop, sepItem, countOf, hiBelow, hiAllows, hiReached, lxW, ctxW, RW, EW,
+    scanW, mW, Lexer.withFilter, Lexer.setFilter, Lexer.new, Lexer.bufferNext, Lexer.bufferLoop, Lexer.next,
+    Lexer.peek, Lexer.filtered, passesMask, classOf, Pos.zero]
 
 end Tephra.Props
